@@ -1,6 +1,7 @@
 import Tea.Gen.KeyTable
 import Tea.Doc.KeyTable
 import Tea.Input.Reader
+import Tea.Proofs.Paste
 /-
 Bridge theorems: the facts regenerated from /repo's working tree (`Tea/Gen`)
 satisfy the side conditions the general theorems need, and equal the frozen
@@ -16,5 +17,13 @@ theorem lens_pos : ∀ l ∈ Tea.Gen.seqLengths, 0 < l := by decide
 /-- the key-type constants the model mentions by name -/
 theorem key_consts : Tea.Gen.keyRunes = keyRunes ∧ Tea.Gen.keySpace = keySpace ∧
     Tea.Gen.keyNUL = keyNUL ∧ Tea.Gen.keyESC = keyESC := by decide
+
+/-- no key of the current table begins with the paste start marker (hypothesis `StartFree` of the
+C10 theorems about completely filled reads) -/
+theorem start_free : Tea.Input.StartFree Tea.Gen.extSequences :=
+  Tea.Input.startFree_of_B (by decide +kernel)
+
+/-- the read-buffer size the reader model assumes -/
+theorem buf_size : bufSize = 256 := rfl
 
 end Tea.Props.Bridge
